@@ -691,6 +691,8 @@ def minimise_job(job):
         return key, w
     w.update({"history": ops, "failing_op_index": v[1], "failing_op": ops[v[1]], "expected": v[2], "observed": v[3],
               "minimised": True})
+    if len(ops) <= 64:
+        w["payload_hex"] = [encode_op(o).hex() for o in ops]
     return key, w
 
 
